@@ -46,7 +46,11 @@ TSnap ==
          dpre == DiffIfaces(e.d1, e.pre) dpost == DiffIfaces(e.d1, e.post)
          stable == DiffIfaces(e.d1, e.d2)
          wkind == e.writer[1].op
-     IN /\ (IF dpre = {} \/ dpost = {} THEN TRUE
+     IN /\ (IF ~e.late_read \/ dpre = {} THEN TRUE
+            (* the snapshot was complete before the writer started: it must show the state before *)
+            ELSE Emit([prop |-> "C03", at |-> l, id |-> e.id, kind |-> "snapshot-shows-a-later-commit", writer |-> wkind,
+                       overlap |-> Overlap(e.steps), schedule |-> e.schedule, differs_from_pre |-> SetToSeq(dpre)]))
+        /\ (IF dpre = {} \/ dpost = {} THEN TRUE
             ELSE Emit([prop |-> "C03", at |-> l, id |-> e.id, kind |-> "snapshot-is-no-committed-state",
                        writer |-> wkind, overlap |-> Overlap(e.steps), schedule |-> e.schedule,
                        differs_from_pre |-> SetToSeq(dpre), differs_from_post |-> SetToSeq(dpost)]))
